@@ -20,16 +20,23 @@ CLAIM = dict(
           "MULTI-output functors (fmap returns a list of results; the combinators are instances), so 'results in front, remaining "
           "operands behind' is part of curry_any_split / compose_apply. Tied to the C++ by 36 functor pipelines x every curry split "
           "incl. surplus operands (functor result vs direct view call vs reference), 30 view trees of depth 1..4 (apply of the "
-          "extraction, operand ADDRESSES, get_compute_graph canonicalised by first occurrence)."),
+          "extraction, operand ADDRESSES, get_compute_graph canonicalised by first occurrence, raw out-edge lists so that a duplicated "
+          "edge is visible), and 24 view DAGs with alias-named leaves and shared sub-views (fan-out 2 and 3 at several depths, nested "
+          "diamonds, a leaf reached through both operands at different depths, subtract/divide/power with mirrored operands, operand "
+          "ids that are permutations or have equal sums, 8 random DAGs): node count and names, edge MULTISET, number of distinct ids "
+          "against the DAG model (C14_dag_graph: distinct nodes, no edge twice, edges exactly operand->operation; C14_dag_in_degree: "
+          "in-edges of an operation = its distinct operands, each once)."),
     ref="5.14", technique="Coq proof (stack-machine compilation, induction on trees / chunk lists) + differential correspondence", extra="")
 RULE = ("36 pipelines (single functors with/without attributes, compositions of 2..4 functors, binary functors in every position, "
         "both parenthesisations; pipelines ending in every combinator swap/dup/dig1..3/bury1..3 followed by the non-commutative "
         "subtract/matmul, and a combinator in the middle) x EVERY split of the operands into calls, including every split that "
         "supplies one operand more than the pipeline consumes in the completing call (result = operand tuple) x random square operands; 30 view "
-        "trees depth 1..4 x leaf kinds (run-time shaped ndarray; fixed_ndarray for the binary-ufunc trees) x random operands. "
+        "trees depth 1..4 x leaf kinds (run-time shaped ndarray; fixed_ndarray for the binary-ufunc trees) x random operands; 24 view "
+        "DAGs (16 hand-written patterns + 8 from a seeded generator) compared on node set, edge multiset and id distinctness. "
         "non-trivial = composition of >= 2 functors or tree of depth >= 2; distinct = distinct case lines")
 THEOREM_STATUS = {"proved": ["C14_curry_any_split", "C14_compose_apply", "C14_compose_assoc", "C14_compose_two", "C14_combinators",
-                             "C14_extraction_correct_on_domain", "C14_operands_are_leaves", "C14_graph_nodes_edges"],
+                             "C14_extraction_correct_on_domain", "C14_operands_are_leaves", "C14_graph_nodes_edges",
+                             "C14_dag_graph", "C14_dag_in_degree", "C14_distinct_operations_distinct_ids"],
                   "partial": ["C14_ids_unique_partial"],
                   "refuted": ["C14_extraction_refuted", "C14_ids_unique_refuted", "C14_ids_unique_refuted_beyond_1033"]}
 ASSUMPTIONS = ["array semantics of the individual functors are parameters of the theorems (the handler's reference evaluator for "
@@ -44,9 +51,10 @@ UFUNC2 = {"add", "sub", "mul"}
 def drivers(tier):
     # two keys = two build groups of two compile jobs each (at most 3 compile jobs at once on the shared machine);
     # asan: -O0 -g0 (compile time; the sanitizer checks are the same)
-    # c14g (view DAGs; the graph is computed at compile time: one flavour) is built with the c14 group: 3 jobs
-    return {"c14": [("c14.cpp", "ndebug", ()), ("c14.cpp", "asan", ("-O0", "-g0")), ("c14g.cpp", "ndebug", ())],
-            "c14x": [("c14x.cpp", "ndebug", ()), ("c14x.cpp", "asan", ("-O0", "-g0"))]}
+    # c14g (view DAGs; the graph is computed at compile time) has two tables = two builds of the same source, one per
+    # group (different flavours so that the binary cache keeps both): 3 compile jobs per group
+    return {"c14": [("c14.cpp", "ndebug", ()), ("c14.cpp", "asan", ("-O0", "-g0")), ("c14g.cpp", "ndebug", ("-DC14G_PART=1",))],
+            "c14x": [("c14x.cpp", "ndebug", ()), ("c14x.cpp", "asan", ("-O0", "-g0")), ("c14g.cpp", "debug", ("-DC14G_PART=2",))]}
 
 
 def _table(src, macro):
@@ -61,8 +69,9 @@ TREES = [(n, int(g)) for n, g in _table("c14x.cpp", "TREES")]         # (tree, g
 FIXTREES = [n for n, _ in _table("c14x.cpp", "FIXTREES")]
 def _dags():
     txt = open(os.path.join(os.path.dirname(__file__), "..", "..", "drivers", "c14g.cpp")).read()
-    return re.findall(r'X\("([^"]+)",', txt[txt.index("#define DAGS(X)"):])
-DAGS = _dags()                                                         # view DAG programs
+    a = txt.index("#if C14G_PART == 1"); b = txt.index("#else", a); c = txt.index("#endif", b)
+    return re.findall(r'X\("([^"]+)",', txt[a:b]), re.findall(r'X\("([^"]+)",', txt[b:c])
+DAGS1, DAGS2 = _dags()                                                 # view DAG programs (hand-written, random)
 def _comps(t): return [[]] if t == 0 else [[k] + r for k in range(1, t + 1) for r in _comps(t - k)]
 def splits(arity):
     """every way to supply the operands: all compositions of `arity`, plus all compositions of arity+1 in which the
@@ -117,8 +126,8 @@ def gen_cases(rng, tier):
             n = rng.choice([1, 2, 2, 3, 3])
             stream = "trees-wf" if wf(parse(name)) else "trees-outside-wf"
             out.append((stream, "ext S:dyn S:%s S:%s %s %s %s" % ("g1" if g else "g0", name, rnd(rng, n), rnd(rng, n), rnd(rng, n)), "c14x"))
-    for prog in DAGS:
-        out.append(("dags", "dag S:%s" % prog, "c14"))
+    for prog in DAGS1: out.append(("dags", "dag S:%s" % prog, "c14"))
+    for prog in DAGS2: out.append(("dags-random", "dag S:%s" % prog, "c14x"))
     for name in FIXTREES:
         for _ in range(reps):
             out.append(("trees-fixed-kind", "ext S:fix S:g0 S:%s %s %s %s" % (name, rnd(rng, 2), rnd(rng, 2), rnd(rng, 2)), "c14x"))
